@@ -15,12 +15,13 @@ theorem run_returned_sound (R : Int → Bool) (cfg : Cfg α) (ev : List (Nat × 
 
 theorem run_raised_sound (R : Int → Bool) (cfg : Cfg α) (ev : List (Nat × In α)) (r : Bool) (c : Int)
     (s : Option String) (h : (run R cfg ev).outcome = .raised r c s) :
-    ∃ pre a post code, ev = pre ++ (a, In.err cfg.reqId code s) :: post ∧ NoMatch cfg pre := by
+    ∃ pre a post code, ev = pre ++ (a, In.err cfg.reqId code s) :: post ∧ NoMatch cfg pre
+      ∧ c = code.getD (-32603) ∧ r = R c := by
   unfold run at h
   split at h
   · simp at h
   · obtain ⟨pre, a, post, code, he, hn⟩ := loop_raised_sound R cfg 0 ev _ _ _ r c s h
-    exact ⟨pre, a, post, code, he, hn.1⟩
+    exact ⟨pre, a, post, code, he, hn⟩
 
 /-- undoing `shift`: a decomposition of the shifted stream is one of the stream itself -/
 theorem shift_decomp (s : Nat) (ev pre post : List (Nat × In α)) (a : Nat) (m : In α) (cfg : Cfg α)
